@@ -5,14 +5,19 @@
    produced by exactly the same number of accepted draws, fewer than half of the draws are rejected.
 2. TLC on spec/PRFModel.tla enumerates every history of 4 PRF calls drawn from 2 keys x 2 counters x 2 types over
    3 evaluator instances (instances numbered by first use) plus fixed histories for large / nested types (buffer
-   growth 64 -> 512 bytes) and permutations (B1); `values c15-prf` executes each history through fresh
+   growth 64 -> 512 bytes), permutations, and a generated family of composite types (every vector length in
+   0, 1, 2, 3, 40, 70, 600 over leaves with / without unused bits, all pairs of leaves as tuples / named tuples,
+   vector-of-tuple, vector-of-vector, tuple-of-vector; GenLevel 2 in the thorough tier) (B1); `values c15-prf` executes each history through fresh
    SimpleEvaluator instances (evaluate_node on PRF / PermutationFromPRF nodes); TLC on spec/PRFTrace.tla requires all
    outputs of all histories to be explained by ONE function table, different (key, counter) to give different wide
    outputs, outputs to be valid encodings with zero unused bits, permutations to be permutations.
 3. `values c15-rej` (no hooks): equally seeded generators, one giving the raw byte stream; TLC on
    spec/RejectionTrace.tla recomputes rejections and results of get_random_in_range (moduli 1..300 and boundary moduli
-   up to 2^64-1), replays the Fisher-Yates shuffles of PermutationFromPRF / RandomPermutation from the raw stream,
-   and checks that a seeded generator replays exactly.
+   up to 2^64-1), replays the Fisher-Yates shuffles of PermutationFromPRF / RandomPermutation from the raw stream
+   (sessions of up to 1500 / 5000 draws of 2 and 3 bytes under 4 (key, counter) pairs, so that the batches of the stream
+   cut the draws at every offset; `permext` records: the shuffle of n elements continues the shuffle of n0 elements,
+   n up to 68000, i.e. draws of 4 bytes), and checks that a seeded generator replays exactly and that generated values
+   (the types of step 2, incl. the generated family of composite types) are valid encodings with zero unused bits.
 """
 import json
 from . import lib
@@ -100,12 +105,17 @@ def run(chk):
         s = {"record": rec["kind"], "facets": facets}
         if rec["kind"] == "range":
             s["modulus"] = str(sum(l << (8 * i) for i, l in enumerate(rec["m"])))
-        if rec["kind"] in ("permprf", "permrng"):
+        if rec["kind"] in ("permprf", "permrng", "permext"):
             s["n"] = rec["n"]
+        if rec["kind"] == "permext":
+            s["n0"] = rec["n0"]
         return s
 
     def replay_rj(rec, facets):
         r = {k: v for k, v in rec.items() if k not in ("outs",)}
+        if rec["kind"] == "permext":      # megabytes: keep what identifies the case
+            r = {k: v for k, v in rec.items() if k in ("kind", "n0", "n", "key", "ctr")}
+            r["note"] = "PermutationFromPRF(key_bytes(key), ctr_value(ctr), n) vs (.., n0) and PRF(.., u8[N]); see values.rs c15-rej"
         r["failing_facets"] = facets
         r["how"] = "values c15-rej <out> %d %s (seeds derive from VERIF_SEED)" % (chk.seed, tier)
         return r
@@ -116,6 +126,7 @@ def run(chk):
     for r in rj:
         kinds[r["kind"]] = kinds.get(r["kind"], 0) + 1
     chk.note("rng_records", kinds)
+    chk.note("permutation_sessions_n", sorted({r["n"] for r in rj if r["kind"] in ("permprf", "permext")}))
     ndraws = sum(len(r["res"]) for r in rj if r["kind"] == "range")
     nrej = sum((len(r["raw"]) - 16) // 8 - len(r["res"]) for r in rj if r["kind"] == "range")
     chk.note("bounded_draws_validated", ndraws)
@@ -139,6 +150,9 @@ def run(chk):
         "evaluator instances are interchangeable, so histories are enumerated up to renaming of instances",
         "generate_u32_in_range is private: it is exercised through PermutationFromPRF, whose raw stream is obtained "
         "from PRF(key, iv, u8[N]) of another evaluator instance (same key and counter give the same AES counter stream)",
+        "draws of 5 bytes need permutations of more than 2^24 elements and draws of 6..8 bytes are unreachable through "
+        "the API (the modulus is a u32): they are not exercised; draws of 4 bytes are validated on the last steps of "
+        "shuffles of 2^16 + k elements, starting from the code's own shuffle of n0 elements (permext)",
     ]
 
 
